@@ -6,6 +6,7 @@ package main
 //   * a scripted peer on the connection channels: logs on, injects TestRequests / Heartbeats / ResendRequests
 //     at pseudo-random points, reads everything the session writes, logs out,
 //   * the message store (memory or file) wrapped by a goroutine-safe logging store.
+// Op:   srcfacts   (first case only)  =>  facts <function:storeMethod …>   direct outbound store mutations in the source
 // Op:   round store=mem|file persist=0|1 senders=N per=K early=0|1 reset=0|1|2 rr=R tr=T hb=H outcap=C seed=S
 // Obs:  ok <finalSender> <storedRanges|-> <accepted> <live> <event tokens…>   (or  stalled <stage> | panic | crashed)
 //   tokens (one total order: store events under the store wrapper's lock, wire events as the peer reads them):
@@ -21,6 +22,9 @@ import (
 	"bufio"
 	"bytes"
 	"fmt"
+	"go/ast"
+	"go/parser"
+	"go/token"
 	"os"
 	"os/exec"
 	"path/filepath"
@@ -681,6 +685,10 @@ func (c *concImpl) execDirect(op string) string {
 }
 
 func genConc(r *rng, tier string, idx int, o *out, do func(string) string) string {
+	if idx == 0 {
+		do("srcfacts")
+		o.kind("srcfacts")
+	}
 	senders := []int{4, 8, 16, 32}[r.intn(4)]
 	total := r.rangeInt(120, 360)
 	if tier == "thorough" {
@@ -727,6 +735,56 @@ func genConc(r *rng, tier string, idx int, o *out, do func(string) string) strin
 	return "conc"
 }
 
+// ---------------------------------------------------------------- source facts
+//
+// `srcfacts`: every place of package quickfix (test files and verif shims excluded) that mutates the OUTBOUND side of
+// the session's message store directly — `<x>.store.Reset / SetNextSenderMsgSeqNum / IncrNextSenderMsgSeqNum /
+// SaveMessage / SaveMessageAndIncrNextSenderMsgSeqNum` — as `function:method`, sorted.  The model side lists the
+// call sites it knows (all inside sendMutex, or the administrative SetNextSenderMsgSeqNum API): a new direct store
+// mutation, such as the `store.Reset()` that handleLogon used to contain, is a correspondence disagreement.
+func concSrcFacts() string {
+	repo := os.Getenv("VERIF_REPO")
+	if repo == "" {
+		repo = "/repo"
+	}
+	want := map[string]bool{"Reset": true, "SetNextSenderMsgSeqNum": true, "IncrNextSenderMsgSeqNum": true,
+		"SaveMessage": true, "SaveMessageAndIncrNextSenderMsgSeqNum": true}
+	files, _ := filepath.Glob(filepath.Join(repo, "*.go"))
+	fset := token.NewFileSet()
+	seen := map[string]bool{}
+	for _, f := range files {
+		base := filepath.Base(f)
+		if strings.HasSuffix(base, "_test.go") || strings.HasPrefix(base, "verif_") {
+			continue
+		}
+		af, err := parser.ParseFile(fset, f, nil, 0)
+		if err != nil {
+			return "facts unparsed:" + base
+		}
+		for _, d := range af.Decls {
+			fd, ok := d.(*ast.FuncDecl)
+			if !ok || fd.Body == nil {
+				continue
+			}
+			ast.Inspect(fd.Body, func(n ast.Node) bool {
+				if c, ok := n.(*ast.CallExpr); ok {
+					ch := selChain(c.Fun)
+					if len(ch) >= 3 && ch[len(ch)-2] == "store" && want[ch[len(ch)-1]] {
+						seen[fd.Name.Name+":"+ch[len(ch)-1]] = true
+					}
+				}
+				return true
+			})
+		}
+	}
+	var out []string
+	for k := range seen {
+		out = append(out, k)
+	}
+	sort.Strings(out)
+	return "facts " + strings.Join(out, " ")
+}
+
 // ---------------------------------------------------------------- crash isolation
 //
 // An engine whose locks have been removed races on slice headers and can corrupt the heap: the Go runtime then dies
@@ -751,6 +809,9 @@ func (c *concSupervisor) stop() {
 }
 
 func (c *concSupervisor) exec(op string) string {
+	if strings.TrimSpace(op) == "srcfacts" {
+		return guard(concSrcFacts)
+	}
 	if c.cmd == nil {
 		cmd := exec.Command(os.Args[0], "conc-worker")
 		stdin, err1 := cmd.StdinPipe()
